@@ -739,6 +739,14 @@ func init() {
 	I["symString"] = func(fr *frame, a []value) value { return mkStr(symBytes(a)) }
 	I["symChoice"] = func(fr *frame, a []value) value {
 		n := a[1].(int)
+		if ReplayOn {
+			d := 0
+			if len(X.choices) < len(ReplayChoices) {
+				d = ReplayChoices[len(X.choices)]
+			}
+			X.choices = append(X.choices, d)
+			return d
+		}
 		d := X.decide(n, func(int) string { return "" })
 		X.choices = append(X.choices, d)
 		return d
@@ -784,7 +792,22 @@ func init() {
 	I["symUF8"] = func(fr *frame, a []value) value {
 		fn := "uf_" + strArg(a[0])
 		X.declFun(fn, "((_ BitVec 64)) (_ BitVec 8)")
-		return sym{types.Uint8, "(" + fn + " " + lift(a[1]).term + ")"}
+		res := "(" + fn + " " + lift(a[1]).term + ")"
+		X.ufApps = append(X.ufApps, ufApp{strArg(a[0]), lift(a[1]).term, res})
+		if ReplayOn {
+			for k, v := range ReplayUF {
+				var f string
+				var arg int64
+				if i := strings.Index(k, "("); i > 0 {
+					f = k[:i]
+					fmt.Sscanf(k[i+1:], "%d", &arg)
+				}
+				if f == strArg(a[0]) {
+					X.S.send(fmt.Sprintf("(assert (= (%s (_ bv%d 64)) (_ bv%d 8)))", fn, uint64(arg), v))
+				}
+			}
+		}
+		return sym{types.Uint8, res}
 	}
 	// symConcretize(x, n): fork on x in 0..n-1
 	I["symConcretize"] = func(fr *frame, a []value) value {
